@@ -120,6 +120,14 @@ func c01Gen(rng *verifsim.RNG, idx int, tier string) *Plan {
 	if rng.Bool(0.1) {
 		horizon = rng.Dur(10*time.Minute, 3*time.Hour)
 	}
+	if rng.Bool(0.12) {
+		// the address (or loopback route) listing fails now and then: whatever
+		// needs it is not built, nothing goes out with the options left out
+		seam := []string{"rtnl.addr", "rtnl.addr", "rtnl.route"}[rng.Intn(3)]
+		p.Faults = append(p.Faults, Fault{Seam: seam, From: int64(rng.Dur(0, horizon)), Count: rng.Range(1, 3), Err: []string{"nl.EPERM", "nl.EINVAL", "opaque"}[rng.Intn(3)]})
+		p.Class += "+failing-listing"
+	}
+
 	p.Horizon = int64(horizon)
 	p.Stop = []string{"SIGTERM", "SIGINT", "SIGHUP"}[rng.Intn(3)]
 
